@@ -31,6 +31,70 @@ func errorish(v ssa.Value) bool {
 // ---------------------------------------------------------------------------
 // C11.R2 paged path of Replay.
 
+// callbackForwarderEvent: call goes to a function of the package that (on every path) calls
+// its func(*StoredEvent) error parameter with its *StoredEvent parameter and never returns
+// nil when that call failed; returns the event argument of the call, else nil.
+func callbackForwarderEvent(call *ssa.Call) ssa.Value {
+	sc := call.Common().StaticCallee()
+	if sc == nil || PkgOf(sc) != PkgBus || len(sc.Blocks) == 0 {
+		return nil
+	}
+	var fnP, evP *ssa.Parameter
+	fi, ei := -1, -1
+	for i, prm := range sc.Params {
+		if sig, ok := prm.Type().Underlying().(*types.Signature); ok && sig.Params().Len() == 1 && typeName(sig.Params().At(0).Type()) == "StoredEvent" && sig.Results().Len() == 1 {
+			fnP, fi = prm, i
+		} else if typeName(prm.Type()) == "StoredEvent" {
+			evP, ei = prm, i
+		}
+	}
+	if fnP == nil || evP == nil || fi >= len(call.Common().Args) || ei >= len(call.Common().Args) {
+		return nil
+	}
+	var inner *ssa.Call
+	for _, b := range sc.Blocks {
+		for _, in := range b.Instrs {
+			if c2, ok := in.(*ssa.Call); ok && isDynamicCall(c2.Common()) && stripConv(c2.Common().Value) == ssa.Value(fnP) && len(c2.Common().Args) == 1 && stripConv(c2.Common().Args[0]) == ssa.Value(evP) {
+				inner = c2
+			}
+		}
+	}
+	if inner == nil {
+		return nil
+	}
+	// the callback call is made on every path, and its error is not turned into nil
+	for _, ret := range returnsOf(sc) {
+		if !(inner.Block() == ret.Block() || inner.Block().Dominates(ret.Block())) {
+			return nil
+		}
+	}
+	okErr := false
+	for _, ref := range *inner.Referrers() {
+		if _, isRet := ref.(*ssa.Return); isRet {
+			okErr = true
+		}
+		if bo, ok := ref.(*ssa.BinOp); ok {
+			for _, r2 := range *bo.Referrers() {
+				if iff, ok := r2.(*ssa.If); ok {
+					if _, nonNilOnTrue, ok := nilTest(iff.Cond); ok {
+						arm := iff.Block().Succs[1]
+						if nonNilOnTrue {
+							arm = iff.Block().Succs[0]
+						}
+						if !reachesNilReturn(arm) {
+							okErr = true
+						}
+					}
+				}
+			}
+		}
+	}
+	if !okErr {
+		return nil
+	}
+	return call.Common().Args[ei]
+}
+
 func checkReplayPaged(c *Ctx, p *Prog, R *BusRoles, rule string) {
 	root := p.Method(PkgBus, "EventBus", "Replay")
 	if root == nil {
@@ -168,10 +232,20 @@ func checkReplayPaged(c *Ctx, p *Prog, R *BusRoles, rule string) {
 	// (d) every event of the page reaches the callback: the callback call dominates the
 	// inner loop's back edge and the inner loop ranges over the whole page
 	var cb *ssa.Call
+	var cbEvent ssa.Value
 	for b := range body {
 		for _, in := range b.Instrs {
-			if call, ok := in.(*ssa.Call); ok && isDynamicCall(call.Common()) && len(call.Common().Args) == 1 && typeName(call.Common().Args[0].Type()) == "StoredEvent" {
-				cb = call
+			call, ok := in.(*ssa.Call)
+			if !ok {
+				continue
+			}
+			if isDynamicCall(call.Common()) && len(call.Common().Args) == 1 && typeName(call.Common().Args[0].Type()) == "StoredEvent" {
+				cb, cbEvent = call, call.Common().Args[0]
+			}
+			// or through a helper of the package that hands the event to the callback and
+			// returns its error (deliverReplayed(handler, event))
+			if ev := callbackForwarderEvent(call); ev != nil {
+				cb, cbEvent = call, ev
 			}
 		}
 	}
@@ -187,7 +261,7 @@ func checkReplayPaged(c *Ctx, p *Prog, R *BusRoles, rule string) {
 				}
 			}
 			// element of the page at the range index
-			if ld, ok := stripConv(cb.Common().Args[0]).(*ssa.UnOp); !(ok && ld.Op == token.MUL && isElemOf(ld.X, evs)) {
+			if ld, ok := stripConv(cbEvent).(*ssa.UnOp); !(ok && ld.Op == token.MUL && isElemOf(ld.X, evs)) {
 				okInner = false
 			}
 			// full range
@@ -381,17 +455,25 @@ func (r *yieldRule) OnInstr(e *Engine, st *State, fc *FrameCtx, in ssa.Instructi
 				b[0] = 'e'
 			} else if k, ok := x.Val.(*ssa.Const); ok && k.Value == nil {
 				b[0] = 'n'
+			} else if isNil, known := st.Pred(nilKey(e.CanonS(fc, x.Val))); known && !isNil {
+				b[0] = 'e' // an error value this path found non-nil (a helper's wrapped error)
 			} else {
 				b[0] = '?'
 			}
 		}
 	case *ssa.Call:
+		var cbArg ssa.Value
 		if isDynamicCall(x.Common()) && len(x.Common().Args) == 1 && typeName(x.Common().Args[0].Type()) == "StoredEvent" {
+			cbArg = x.Common().Args[0]
+		} else if ev := callbackForwarderEvent(x); ev != nil {
+			cbArg = ev // a helper that hands the event to the callback and returns its error
+		}
+		if cbArg != nil {
 			if b[1] < '2' {
 				b[1]++
 			}
 			r.cb = x
-			if p, ok := stripConv(x.Common().Args[0]).(*ssa.Parameter); !ok || p != fc.fn.Params[0] {
+			if p, ok := stripConv(cbArg).(*ssa.Parameter); !ok || p != fc.fn.Params[0] {
 				e.Report(st, in.Pos(), "Replay/stream/callback-arg", "the replay callback is not given the event the stream yielded")
 			}
 		}
